@@ -35,6 +35,73 @@ macro_rules! array_contract_checks {
                 }};
             }
 
+            /// element type whose `+` is not commutative (concatenation) and whose `-` strips a suffix
+            #[derive(Clone, Debug, PartialEq)]
+            pub struct Word(pub String);
+            impl std::ops::Add for Word {
+                type Output = Word;
+                fn add(self, rhs: Word) -> Word {
+                    Word(format!("{}{}", self.0, rhs.0))
+                }
+            }
+            impl std::ops::Sub for Word {
+                type Output = Word;
+                fn sub(self, rhs: Word) -> Word {
+                    Word(self.0.strip_suffix(rhs.0.as_str()).unwrap_or("?").to_string())
+                }
+            }
+
+            /// the generic primitives on a zero-sized element type and on one with a non-commutative `+`
+            pub fn exotic_element_types(ctx: &mut Ctx, n: usize, m: usize, tag: &str) {
+                let p = |api: &str, clause: &str| format!("{}{}/{}/value/any", tag, api, clause);
+                let input = json!({"unit_array_lengths": [n, m]});
+                let (un, um): ($A<()>, $A<()>) = ($A(vec![(); n]), $A(vec![(); m]));
+                if let Some(l) = call!(ctx, "len<()>", input, (<$A<()> as Array<K, ()>>::len(&un), <$A<()> as Array<K, ()>>::is_empty(&un))) {
+                    ctx.check(l == (n, n == 0), &p("len<()>", "count"), || json!({"input": input, "observed": format!("{:?}", l)}));
+                }
+                if let Some(e) = call!(ctx, "eq<()>", input, un == um) {
+                    ctx.check(e == (n == m), &p("eq<()>", "equal-iff-same-length"), || json!({"input": input, "observed": e}));
+                }
+                if let Some(x) = call!(ctx, "from_slice<()>", input, <$A<()> as Array<K, ()>>::from_slice(&vec![(); n])) {
+                    ctx.check(x.0.len() == n, &p("from_slice<()>", "copy"), || json!({"input": input, "observed_len": x.0.len()}));
+                }
+                if let Some(x) = call!(ctx, "concatenate<()>", input, un.concatenate(&um)) {
+                    ctx.check(x.0.len() == n + m, &p("concatenate<()>", "append"), || json!({"input": input, "observed_len": x.0.len()}));
+                }
+                if let Some(x) = call!(ctx, "fill<()>", input, <$A<()> as Array<K, ()>>::fill((), m)) {
+                    ctx.check(x.0.len() == m, &p("fill<()>", "constant"), || json!({"input": input, "observed_len": x.0.len()}));
+                }
+                // gather from a unit array: as many elements as indices (also none from an empty array)
+                let idx: Vec<usize> = if n == 0 { vec![] } else { (0..m).map(|i| (i * 7 + 3) % n).collect() };
+                if let Some(x) = call!(ctx, "gather<()>", input, un.gather(&idx)) {
+                    ctx.check(x.0.len() == idx.len(), &p("gather<()>", "x[i]=self[idx[i]]"), || json!({"input": input, "observed_len": x.0.len()}));
+                }
+                if let Some(x) = call!(ctx, "get_range<()>", input, (un.get_range(..).len(), un.get_range(n / 2..).len())) {
+                    ctx.check(x == (n, n - n / 2), &p("get_range<()>", "slice"), || json!({"input": input, "observed": format!("{:?}", x)}));
+                }
+                if n > 0 {
+                    let sidx: Vec<usize> = (0..n).map(|i| (i * 5 + 1) % (n + 2)).collect();
+                    if let Some(x) = call!(ctx, "scatter<()>", input, un.scatter(&sidx, n + 2)) {
+                        ctx.check(x.0.len() == n + 2, &p("scatter<()>", "x[idx[i]]=self[i]"), || json!({"input": input, "observed_len": x.0.len()}));
+                    }
+                }
+                if let Some(pm) = call!(ctx, "argsort<()>", input, un.argsort()) {
+                    let mut sorted = pm.0.clone();
+                    sorted.sort();
+                    ctx.check(sorted == (0..n).collect::<Vec<_>>(), &p("argsort<()>", "sorting-permutation"), || json!({"input": input, "observed": pm.0}));
+                }
+                // element-wise + and - on a type whose + does not commute
+                let wa: Vec<Word> = (0..n).map(|i| Word(format!("a{}", i))).collect();
+                let wb: Vec<Word> = (0..n).map(|i| Word(format!("b{}", i * i))).collect();
+                if let Some(x) = call!(ctx, "add<Word>", input, $A(wa.clone()) + $A(wb.clone())) {
+                    let want: Vec<Word> = wa.iter().zip(wb.iter()).map(|(a, b)| a.clone() + b.clone()).collect();
+                    ctx.check(x.0 == want, &p("add<Word>", "elementwise-in-order"), || json!({"input": input, "observed": format!("{:?}", x.0)}));
+                }
+                if let Some(x) = call!(ctx, "sub<Word>", input, ($A(wa.clone()) + $A(wb.clone())) - $A(wb.clone())) {
+                    ctx.check(x.0 == wa, &p("sub<Word>", "elementwise-in-order"), || json!({"input": input, "observed": format!("{:?}", x.0)}));
+                }
+            }
+
             /// unary primitives on one array
             pub fn unary(ctx: &mut Ctx, v: &[usize], tag: &str) {
                 let input = json!({"array": v});
@@ -281,6 +348,7 @@ macro_rules! array_contract_checks {
                         if let Some(x) = call!(ctx, "fill<T>", input, <$A<String> as Array<K, String>>::fill(format!("e{}", c), k)) {
                             ctx.check(x.0 == vec![format!("e{}", c); k], &p("fill<T>", "constant"), || json!({"input": input, "observed": x.0}));
                         }
+                        exotic_element_types(ctx, n.min(300), m.min(300), tag);
                     }
                     1 => {
                         // gather
